@@ -268,7 +268,7 @@ class subdomain_deflation {
 
                         if (marker[d] != i) {
                             marker[d] = i;
-                            az_rem->ptr[i+1] += dv_size[d];
+                            az_rem->ptr[i+1] += dv_size[Acp.recv.nbr[d]];
                         }
                     }
                 }
